@@ -232,6 +232,21 @@ func c07genTerm(r *core.Rng, kids []*gen.SNode, depth int) string {
 			}
 			b.WriteString("(" + c07genExpr(r, cur, depth-1) + ")")
 			if r.Chance(25) {
+				// a second group right after the first: every combination
+				var names []string
+				for _, k := range cur {
+					for _, kk := range k.Kids {
+						names = append(names, kk.Name)
+					}
+				}
+				if len(names) > 0 {
+					g := []string{}
+					for i, n := 0, 1+r.Intn(3); i < n; i++ {
+						g = append(g, core.Pick(r, names))
+					}
+					b.WriteString("(" + strings.Join(g, ";") + ")")
+				}
+			} else if r.Chance(25) {
 				// something after the group: the same child of every alternative
 				if r.Chance(50) {
 					b.WriteString("/")
@@ -408,10 +423,44 @@ func C07(c *core.Ctx) {
 		}
 		exprs = append(exprs, b.String())
 	}
+	// expressions of the grammar: sequences of names and groups, groups of 1–4 alternatives, nested
+	var genAlts func(depth int) string
+	genTerm := func(depth int) string {
+		var b strings.Builder
+		for i, n := 0, 1+rng.Intn(3); i < n; i++ {
+			if depth > 0 && rng.Chance(45) {
+				if b.Len() > 0 && rng.Chance(50) {
+					b.WriteString("/")
+				}
+				b.WriteString("(" + genAlts(depth-1) + ")")
+			} else {
+				if b.Len() > 0 {
+					b.WriteString("/")
+				}
+				b.WriteString(core.Pick(rng, []string{"a", "b", "cc", "d1", "e-e"}))
+			}
+		}
+		return b.String()
+	}
+	genAlts = func(depth int) string {
+		var alts []string
+		for i, n := 0, 1+rng.Intn(4); i < n; i++ {
+			alts = append(alts, genTerm(depth))
+		}
+		return strings.Join(alts, ";")
+	}
+	for i := 0; i < c.N(300, 6000); i++ {
+		exprs = append(exprs, genAlts(2))
+	}
 	addParse := func(e string) {
 		got := "error"
-		if pe, err := node.ParsePathExpression(e); err == nil {
-			got = strings.TrimSpace("ok " + pe.String())
+		if perr := safeDo(func() error {
+			if pe, err := node.ParsePathExpression(e); err == nil {
+				got = strings.TrimSpace("ok " + pe.String())
+			}
+			return nil
+		}); perr != nil {
+			got = short(perr.Error())
 		}
 		lines = append(lines, "c07 parse "+strings.Join(c07lex(e), " "))
 		pends = append(pends, pend{kind: "parse", desc: "ParsePathExpression", impl: got, input: map[string]interface{}{"expression": e}})
